@@ -16,3 +16,5 @@ mod c01_addsub;
 mod c05_shift;
 #[cfg(kani)]
 mod c06_bits;
+#[cfg(kani)]
+mod c07_cmp;
